@@ -259,3 +259,211 @@ Proof.
   intros. rewrite !scan_absolute, !scan_abs_steps, !absolute_app. cbn [absolute].
   rewrite !steps_app. reflexivity.
 Qed.
+
+(* ------------------------------------------------------------------------------------------ *)
+(** * Round trip: the reader run over the call trace of a note/chord sequence *)
+
+Definition mkn (f : fvoice) (closed : bool) : note :=
+  mkNote (f_pitch f) (v_vel (f_voice f)) (f_on f) (if closed then Some (v_len (f_voice f)) else None).
+Definition mk (c : fvoice -> bool) (f : fvoice) : note := mkn f (c f).
+Definition closed_at (t : Z) (f : fvoice) : bool := f_rel f <=? t.
+Definition cl (f : fvoice) : note := mkn f true.
+
+(* [l] most recent first: among the voices still open (c = false) no pitch occurs twice *)
+Fixpoint uniq_open (c : fvoice -> bool) (l : list fvoice) : Prop :=
+  match l with
+  | [] => True
+  | f :: r => (c f = false -> forall g, In g r -> c g = false -> f_pitch g <> f_pitch f) /\ uniq_open c r
+  end.
+
+Lemma uniq_open_mono : forall (c c' : fvoice -> bool) l,
+  (forall f, c f = true -> c' f = true) -> uniq_open c l -> uniq_open c' l.
+Proof.
+  intros c c' l H. induction l as [|f r IH]; cbn; [auto|]. intros [U1 U2]. split; [|auto].
+  intros Hf g Hg Hcg. apply U1; [|exact Hg|].
+  - destruct (c f) eqn:E; [|reflexivity]. rewrite (H _ E) in Hf. discriminate.
+  - destruct (c g) eqn:E; [|reflexivity]. rewrite (H _ E) in Hcg. discriminate.
+Qed.
+
+Lemma uniq_open_same : forall c l f g,
+  uniq_open c l -> In f l -> In g l -> c f = false -> c g = false -> f_pitch f = f_pitch g -> f = g.
+Proof.
+  induction l as [|h r IH]; intros f g U Hf Hg Cf Cg Hp; [destruct Hf|].
+  destruct U as [U1 U2]. destruct Hf as [<-|Hf], Hg as [<-|Hg].
+  - reflexivity.
+  - exfalso. apply (U1 Cf g Hg Cg). congruence.
+  - exfalso. apply (U1 Cg f Hf Cf). congruence.
+  - apply IH; assumption.
+Qed.
+
+Lemma uniq_open_app : forall c l1 l2,
+  uniq_open c l1 -> uniq_open c l2 ->
+  (forall a b, In a l1 -> In b l2 -> c a = false -> c b = false -> f_pitch b <> f_pitch a) ->
+  uniq_open c (l1 ++ l2).
+Proof.
+  induction l1 as [|f r IH]; intros l2 U1 U2 X; cbn [app]; [exact U2|].
+  destruct U1 as [A B]. split.
+  - intros Cf g Hg Cg. apply in_app_or in Hg as [Hg|Hg]; [apply A; assumption|].
+    apply (X f g); [left; reflexivity|exact Hg|exact Cf|exact Cg].
+  - apply IH; [exact B|exact U2|]. intros a b Ha. apply X. right; exact Ha.
+Qed.
+
+Lemma close_voice : forall c p off l,
+  uniq_open c l ->
+  (forall f, In f l -> c f = false -> f_pitch f = p -> f_rel f = off) ->
+  close_first p off (map (mk c) l) = map (mk (fun f => c f || (f_pitch f =? p))) l.
+Proof.
+  induction l as [|f r IH]; intros U H; [reflexivity|].
+  destruct U as [U1 U2]. cbn [map close_first].
+  assert (Hp : n_pitch (mk c f) = f_pitch f) by reflexivity.
+  assert (Ho : is_open (mk c f) = negb (c f)) by (unfold mk, mkn, is_open; cbn; destruct (c f); reflexivity).
+  rewrite Hp, Ho. clear Hp Ho.
+  destruct (c f) eqn:Ec; cbn [negb].
+  - rewrite andb_false_r. f_equal.
+    + unfold mk. rewrite Ec. reflexivity.
+    + apply IH; [exact U2|]. intros g Hg. apply H. right; exact Hg.
+  - rewrite andb_true_r. destruct (f_pitch f =? p) eqn:Ep.
+    + f_equal.
+      * unfold mk, mkn. rewrite Ec, Ep. cbn [orb n_pitch n_vel n_loc].
+        assert (f_rel f = off) by (apply H; [left; reflexivity|exact Ec|lia]).
+        unfold f_rel in *. replace (off - f_on f) with (v_len (f_voice f)) by lia. reflexivity.
+      * apply map_ext_in. intros g Hg. unfold mk. destruct (c g) eqn:Eg; [reflexivity|].
+        pose proof (U1 eq_refl g Hg Eg). cbn [orb]. replace (f_pitch g =? p) with false by lia. reflexivity.
+    + f_equal.
+      * unfold mk. rewrite Ec, Ep. reflexivity.
+      * apply IH; [exact U2|]. intros g Hg. apply H. right; exact Hg.
+Qed.
+
+Lemma steps_offs : forall fs acc,
+  steps (map off_msg fs) acc = fold_left (fun a f => close_first (f_pitch f) (f_rel f) a) fs acc.
+Proof. induction fs as [|f r IH]; intros acc; [reflexivity|]. cbn [map steps fold_left off_msg fst snd note_step]. apply IH. Qed.
+
+Lemma close_voices : forall fs c l,
+  uniq_open c l ->
+  (forall g, In g fs -> forall f, In f l -> c f = false -> f_pitch f = f_pitch g -> f_rel f = f_rel g) ->
+  fold_left (fun a f => close_first (f_pitch f) (f_rel f) a) fs (map (mk c) l)
+  = map (mk (fun f => c f || existsb (fun g => f_pitch f =? f_pitch g) fs)) l.
+Proof.
+  induction fs as [|g fs IH]; intros c l U H; cbn [fold_left existsb].
+  - apply map_ext. intros f. unfold mk. rewrite orb_false_r. reflexivity.
+  - rewrite close_voice; [|exact U|intros f Hf Hc Hp; apply (H g); [left; reflexivity|exact Hf|exact Hc|exact Hp]].
+    rewrite IH.
+    + apply map_ext. intros f. unfold mk. rewrite orb_assoc. reflexivity.
+    + apply (uniq_open_mono c); [|exact U]. intros f E. rewrite E. reflexivity.
+    + intros g' Hg' f Hf Hc Hp. apply orb_false_elim in Hc as [Hc _].
+      apply (H g'); [right; exact Hg'|exact Hf|exact Hc|exact Hp].
+Qed.
+
+Lemma in_ins_rel : forall x f l, In x (ins_rel f l) <-> x = f \/ In x l.
+Proof.
+  induction l as [|g r IH]; cbn; [intuition|].
+  destruct (f_rel f <=? f_rel g); cbn; rewrite ?IH; intuition.
+Qed.
+Lemma in_sort_rel : forall x l, In x (sort_rel l) <-> In x l.
+Proof.
+  induction l as [|g r IH]; cbn; [tauto|]. rewrite in_ins_rel, IH. intuition.
+Qed.
+
+Lemma flush_gen : forall (due : fvoice -> bool) t done,
+  uniq_open (closed_at t) (rev done) ->
+  (forall f, due f = true -> closed_at t f = false) ->
+  steps (map off_msg (sort_rel (filter due done))) (map (mk (closed_at t)) (rev done))
+  = map (mk (fun f => closed_at t f || due f)) (rev done).
+Proof.
+  intros due t done U Hdue.
+  assert (Hin : forall g, In g (sort_rel (filter due done)) -> In g (rev done) /\ due g = true).
+  { intros g Hg. apply in_sort_rel, filter_In in Hg as [A B]. split; [apply in_rev in A; exact A|exact B]. }
+  rewrite steps_offs, close_voices.
+  - apply map_ext_in. intros f Hf. unfold mk. f_equal.
+    destruct (closed_at t f) eqn:Ec; [reflexivity|]. cbn [orb].
+    destruct (due f) eqn:Ed.
+    + apply existsb_exists. exists f. split; [|lia].
+      apply in_sort_rel, filter_In. split; [apply in_rev; exact Hf|exact Ed].
+    + destruct (existsb _ _) eqn:Ex; [|reflexivity]. exfalso.
+      apply existsb_exists in Ex as [g [Hg Hp]]. destruct (Hin g Hg) as [A B].
+      assert (f = g) by (apply (uniq_open_same _ _ f g U Hf A Ec (Hdue g B)); lia).
+      subst g. congruence.
+  - exact U.
+  - intros g Hg f Hf Hc Hp. destruct (Hin g Hg) as [A B].
+    rewrite (uniq_open_same _ _ f g U Hf A Hc (Hdue g B) Hp). reflexivity.
+Qed.
+
+Lemma no_overlap_app_l : forall a b, no_overlap (a ++ b) = true -> no_overlap a = true.
+Proof.
+  induction a as [|f r IH]; intros b H; [reflexivity|]. cbn [app no_overlap] in *.
+  apply andb_true_iff in H as [A B]. apply andb_true_iff. split; [|apply (IH b B)].
+  rewrite forallb_app in A. apply andb_true_iff in A as [A _]. exact A.
+Qed.
+
+Lemma uniq_open_rev_done : forall t done,
+  no_overlap done = true -> (forall f, In f done -> f_on f <= t) -> uniq_open (closed_at t) (rev done).
+Proof.
+  induction done as [|f r IH]; intros N H; [exact I|]. cbn [rev no_overlap] in *.
+  apply andb_true_iff in N as [A B]. apply uniq_open_app.
+  - apply IH; [exact B|]. intros g Hg. apply H. right; exact Hg.
+  - cbn. split; [|exact I]. intros _ g [].
+  - intros a b Ha [<-|[]] Ca Cb. apply in_rev in Ha.
+    rewrite forallb_forall in A. specialize (A a Ha).
+    assert (f_on a <= t) by (apply H; right; exact Ha).
+    unfold closed_at in *. lia.
+Qed.
+
+Lemma steps_ons : forall o vs acc,
+  (forall v, In v vs -> voice_ok v = true) ->
+  steps (map on_msg (map (mkFV o) vs)) acc = rev (map (fun f => mkn f false) (map (mkFV o) vs)) ++ acc.
+Proof.
+  induction vs as [|v r IH]; intros acc H; [reflexivity|].
+  cbn [map steps fold_left on_msg fst snd note_step f_on f_pitch f_voice].
+  assert (voice_ok v = true) by (apply H; left; reflexivity). unfold voice_ok in *.
+  replace (0 <? v_vel v) with true by lia.
+  change (fold_left _ ?l ?x) with (steps l x). rewrite IH; [|intros w Hw; apply H; right; exact Hw].
+  cbn [rev]. rewrite <- app_assoc. reflexivity.
+Qed.
+
+Lemma place_all_app_ok : forall es o f, In f (place_all es o) -> forallb event_ok es = true ->
+  voice_ok (f_voice f) = true /\ o <= f_on f.
+Proof.
+  induction es as [|e r IH]; intros o f Hin Hok; [destruct Hin|].
+  cbn [place_all forallb] in *. apply andb_true_iff in Hok as [He Hr]. unfold event_ok in He.
+  apply andb_true_iff in He as [Hd Hv].
+  apply in_app_or in Hin as [Hin|Hin].
+  - unfold place in Hin. apply in_map_iff in Hin as [v [<- Hv']]. cbn.
+    rewrite forallb_forall in Hv. split; [apply Hv; exact Hv'|lia].
+  - destruct (IH _ _ Hin Hr). split; [assumption|lia].
+Qed.
+
+(* the simulation: reader state = the voices started so far, closed iff released by tick t *)
+Lemma sim : forall es o t done,
+  t <= o ->
+  (forall f, In f done -> f_on f <= t) ->
+  forallb event_ok es = true ->
+  no_overlap (done ++ place_all es o) = true ->
+  steps (sched_from es o t done) (map (mk (closed_at t)) (rev done))
+  = map cl (rev (done ++ place_all es o)).
+Proof.
+  induction es as [|e r IH]; intros o t done Hto Hon Hok Hno.
+  - cbn [sched_from place_all] in *. rewrite app_nil_r in *. unfold flush_all.
+    rewrite (flush_gen (fun f => t <? f_rel f) t done).
+    + apply map_ext. intros f. unfold mk, cl, closed_at. replace ((f_rel f <=? t) || (t <? f_rel f)) with true by lia. reflexivity.
+    + apply uniq_open_rev_done; assumption.
+    + intros f Hf. unfold closed_at. lia.
+  - cbn [sched_from place_all forallb] in *. apply andb_true_iff in Hok as [He Hr].
+    pose proof He as He'. unfold event_ok in He'. apply andb_true_iff in He' as [Hd Hv]. rewrite forallb_forall in Hv.
+    rewrite !steps_app. unfold flush.
+    rewrite (flush_gen (fun f => (t <? f_rel f) && (f_rel f <=? o)) t done).
+    2:{ apply uniq_open_rev_done; [apply (no_overlap_app_l _ _ Hno)|assumption]. }
+    2:{ intros f Hf. unfold closed_at. lia. }
+    rewrite (steps_ons o (e_voices e) _ Hv : steps (map on_msg (place o e)) _ = _).
+    rewrite app_assoc in Hno.
+    replace (rev (map (fun f => mkn f false) (map (mkFV o) (e_voices e))) ++
+             map (mk (fun f => closed_at t f || (t <? f_rel f) && (f_rel f <=? o))) (rev done))
+      with (map (mk (closed_at o)) (rev (done ++ place o e))).
+    + rewrite IH; [rewrite <- app_assoc; reflexivity|lia| |exact Hr|exact Hno].
+      intros f Hf. apply in_app_or in Hf as [Hf|Hf]; [specialize (Hon f Hf); lia|].
+      unfold place in Hf. apply in_map_iff in Hf as [v [<- _]]. cbn. lia.
+    + rewrite rev_app_distr, map_app. f_equal.
+      * rewrite map_rev. f_equal. apply map_ext_in. intros f Hf.
+        unfold place in Hf. apply in_map_iff in Hf as [v [<- Hv']]. unfold mk, closed_at, f_rel. cbn [f_on f_voice].
+        specialize (Hv v Hv'). unfold voice_ok in Hv. replace (o + v_len v <=? o) with false by lia. reflexivity.
+      * apply map_ext. intros f. unfold mk, closed_at. f_equal. lia.
+Qed.
